@@ -40,7 +40,7 @@ RULE = (
     "none/empty/unparsable, text/plain, html, xhtml, xml, svg, css, json, javascript, octet-stream with no charset or a "
     "charset from ~45 names (latin-1, utf-8, utf-16/32 +le/be, gb2312/gbk/gb18030, ascii, cp1252, CJK and Cyrillic sets, "
     "utf-7, utf-8-sig, quoted, bogus, empty, content-coding and binary-codec names) in several parameter spellings. "
-    "distinct = (media class, charset, parameter spelling, string feature set of the first text, sequence of step kinds, content-encoding flag); "
+    "distinct = (media class, charset, parameter spelling, string feature set of the first text, set of step kinds, #steps bucket, content-encoding flag); "
     "non-trivial = the string has a non-ASCII character, a declaration or a BOM-like prefix, or a charset parameter is present, or the history has more than one step"
 )
 ASSUMPTIONS = [
@@ -315,4 +315,4 @@ def run(ctx):
                 sample = {"content_type": ct_before, "text": s[:80], "content_type_after": wit["content_type_after"], "raw": wit["raw"][:40], "history": log[-6:]}
         f0 = feats_all[0]
         nontrivial = cs is not None or len(sources) > 1 or any(f not in ("ascii", "empty") for fs in feats_all for f in fs)
-        ctx.case((mclass, cs, sp if len(sources) == 1 else "-", f0, tuple(sources[:6]), bool(ce)), nontrivial=nontrivial, sample=sample)
+        ctx.case((mclass, cs, sp if len(sources) == 1 else "-", f0 if len(sources) == 1 else f0[:2], tuple(sorted(set(sources))), min(len(sources), 4), bool(ce)), nontrivial=nontrivial, sample=sample)
